@@ -146,8 +146,16 @@ def prepass_influence(R, rep):
     for bb, term, site in sites:
         q = agg_fields(term)["quantity"]
         mentions = "cost_offsets" in show(q, 0) or any(isinstance(x, tuple) and x and x[0] == "param" and "Decimal]" in b.local_ty(x[1] + 1) for x in subterms(q))
-        rep.ob("R2", "30-day:offsets-not-in-quantity", not mentions, "cost offsets do not enter any matched quantity" if not mentions else
-               "the pre-pass offsets influence a matched quantity", site, key="R2:bnb:offset-in-quantity")
+        if not mentions:
+            tb0 = R.terms(b, 0)
+            for sb in b.reachable():
+                sw = b.term(sb)
+                if sw["k"] == "switch":
+                    cnd = tb0.operand(sw["discr"])
+                    if any(isinstance(x, tuple) and x and x[0] == "param" and "Decimal]" in b.local_ty(x[1] + 1) for x in subterms(cnd)):
+                        mentions = True
+        rep.ob("R2", "30-day:offsets-not-in-quantity", not mentions, "cost offsets enter neither a matched quantity nor a branch condition of the 30-day producer" if not mentions else
+               "the whole-timeline pre-pass offsets influence which shares are matched (quantity term or branch condition)", site, key="R2:bnb:offset-in-quantity")
     # who writes offsets: delegated to C11
     from core import Report
     r2 = Report("tmp")
